@@ -65,13 +65,15 @@ pub fn owners(st: &Step) -> Vec<&'static str> {
         Step::MBase { .. } => vec!["C07", "C04"],
         Step::Uni { .. } => vec!["C06"],
         Step::Batch { .. } | Step::Rerep { .. } | Step::FromEd { .. } => vec!["C06"],
-        Step::Mul { .. }
-        | Step::MulBase { .. }
-        | Step::Clamp { .. }
-        | Step::Table { .. }
-        | Step::Dbl2 { .. }
-        | Step::Msm { .. }
-        | Step::Pre { .. } => vec!["C04"],
+        Step::Mul { g, .. } | Step::MulBase { g, .. } | Step::Table { g, .. } | Step::Dbl2 { g, .. } | Step::Msm { g, .. } | Step::Pre { g, .. } => {
+            // the Ristretto wrappers are also "group operations are the images of the Edwards operations" (C06)
+            if *g == 1 {
+                vec!["C04", "C06"]
+            } else {
+                vec!["C04"]
+            }
+        }
+        Step::Clamp { .. } => vec!["C04"],
         Step::ToMont { .. } => vec!["C07"],
         Step::XKey { .. } | Step::XDh { .. } | Step::XRaw { .. } | Step::SConv { .. } | Step::MEq { .. } => vec!["C07"],
         Step::MMul { .. } | Step::MBits { .. } => vec!["C07", "C04"],
